@@ -278,6 +278,11 @@ func DUIDFromBytes(data []byte) (DUID, error) {
 	}
 
 	typ := DUIDType(buf.Read16())
+	// RFC 8415, Section 11.1: a DUID is the type code followed by at least 1
+	// and at most 128 octets.
+	if buf.Len() < 1 || buf.Len() > 128 {
+		return nil, fmt.Errorf("invalid DUID length %d, want 1..128 octets after the type code", buf.Len())
+	}
 	var d DUID
 	switch typ {
 	case DUID_LLT:
